@@ -10,8 +10,8 @@
    Reader (multibit_add_cable): e_index, e_short = separate(identifier, "_");
        n_index, n_short = separate(name, "["); index = n_index unless e_index is None.
 
-   separate_name_and_index can raise IndexError (name[0] on an empty name; name_split[-1][-1]
-   when the name ends in "["): the model returns [None] in that case.
+   separate_name_and_index no longer raises (repaired: name_split[-1][-1] on a name ending in "[";
+   K9: name[0] on an empty name): [sep_bracket] / [net_bit] never return [None].
    No proofs in this file. *)
 From Coq Require Import List NArith Bool.
 From SV Require Import Base.Base.
@@ -65,29 +65,23 @@ Fixpoint before_last (c : N) (s : str) : option str :=
 
 Definition is_empty (s : str) : bool := match s with [] => true | _ => false end.
 
-(* split_character == "[" *)
+(* split_character == "["  (repaired K9: a name starting with a backslash is split like any other - the
+   test name[0] != "\\" or len(name.split(" ")) == 2 and name.split(" ")[1] != "" is gone, and with it the
+   IndexError on an empty name; the result is never None, the option is kept for the callers) *)
 Definition sep_bracket (name : str) : option (option N * str) :=
-  match name with
-  | [] => None                                            (* name[0]: IndexError *)
-  | c0 :: _ =>
-    let sp := split_on c_space name in
-    if negb (N.eqb c0 c_bsl) || (Nat.eqb (length sp) 2 && negb (is_empty (nth 1 sp [])))
-    then
-      match rev (split_on c_lbr name) with
-      | last :: _ :: _ =>
-        match rev last with
-        | [] => Some (None, name)                         (* name_split[-1].endswith("]") is False: not a bus bit *)
-        | e :: body_rev =>
-          if N.eqb e c_rbr && isdigit (rev body_rev)
-          then match before_last c_lbr name with
-               | Some p => Some (Some (int_of (rev body_rev)), p)
-               | None => Some (None, name)
-               end
-          else Some (None, name)
-        end
-      | _ => Some (None, name)
-      end
-    else Some (None, name)
+  match rev (split_on c_lbr name) with
+  | last :: _ :: _ =>
+    match rev last with
+    | [] => Some (None, name)                         (* name_split[-1].endswith("]") is False: not a bus bit *)
+    | e :: body_rev =>
+      if N.eqb e c_rbr && isdigit (rev body_rev)
+      then match before_last c_lbr name with
+           | Some p => Some (Some (int_of (rev body_rev)), p)
+           | None => Some (None, name)
+           end
+      else Some (None, name)
+    end
+  | _ => Some (None, name)
   end.
 
 (* split_character == "_"  (repaired K4: identifiers starting with "&_" are split like any other; the
